@@ -106,6 +106,14 @@ def impl(c):
         return guarded(f)
     if k == "len":
         return guarded(lambda: len(var))
+    if k == "enc_pair":      # two encodes of one type; the first result is still held when the second is made
+        def f():
+            r1 = var.encode_raw(c["v"])
+            r2 = var.encode_raw(c["v2"])
+            return [bytes(r1), bytes(r2), type(r1).__name__]
+        return guarded(f)
+    if k == "enc_float_big":  # a finite float outside the REAL32 range
+        return guarded(lambda: bytes(var.encode_raw(float.fromhex(c["hex"]))))
     raise ValueError(k)
 
 
@@ -182,6 +190,19 @@ def oracle(c, o):
         elif not valid and dt == VISIBLE and not isinstance(o, Err):
             return ("non_ascii_accepted", f"{s!r} -> {o!r}")
         return None
+    if k == "enc_pair":
+        signed, w = INT_TYPES[dt]
+        e1 = c["v"].to_bytes(w // 8, "little", signed=signed)
+        e2 = c["v2"].to_bytes(w // 8, "little", signed=signed)
+        if isinstance(o, Err) or o[0] != e1 or o[1] != e2:
+            return ("enc_result_not_stable", f"type 0x{dt:X}: encode({c['v']}) then encode({c['v2']}): first result now {o!r}, expected {e1.hex()} / {e2.hex()}")
+        if o[2] not in ("bytes", "bytearray"):
+            return ("enc_result_not_bytes", f"type 0x{dt:X}: encode_raw returned a {o[2]}")
+        return None
+    if k == "enc_float_big":
+        if not isinstance(o, Err):
+            return ("enc_out_of_range_accepted", f"REAL32 value {c['hex']} (finite, outside the binary32 range) encoded as {o!r}")
+        return None
     if k == "len":
         exp = INT_TYPES[dt][1] if dt in INT_TYPES else {BOOLEAN: 8, REAL32: 32, REAL64: 64}.get(dt, 8)
         if o != exp:
@@ -206,7 +227,7 @@ def nontrivial(c):
     if k == "enc_int": return c["v"] != 0
     if k in ("dec", "dec_enc"): return len(c["bs"]) >= 1
     if k in ("str_rt", "enc_str"): return len(c["s"]) >= 1
-    return k == "enc_real"
+    return k in ("enc_real", "enc_pair", "enc_float_big")
 
 
 def boundary_values(signed, w):
@@ -254,6 +275,13 @@ def gen_cases(rng, tier):
         for _ in range(n_rand):
             cases.append(dict(kind="dec_enc", dt=dt, bs=[rng.randrange(256) for _ in range(w // 8)]))
         cases.append(dict(kind="len", dt=dt))
+    # results of earlier encodes stay what they were; finite floats beyond binary32 are rejected
+    for dt, (signed, w) in INT_TYPES.items():
+        lo, hi = rng_of(signed, w)
+        for _ in range(2):
+            cases.append(dict(kind="enc_pair", dt=dt, v=rng.randint(lo, hi), v2=rng.randint(lo, hi), model=False))
+    for hx in ("0x1.ffffffp+127", "0x1.0p+128", "-0x1.0p+128", "0x1.fffffffffffffp+1023", "-0x1.8p+200", "0x1.2ced32a16a1b1p+129"):
+        cases.append(dict(kind="enc_float_big", dt=REAL32, hex=hx, model=False))
     # boolean
     for v in (0, 1):
         cases.append(dict(kind="enc_int", dt=BOOLEAN, v=v))
